@@ -81,7 +81,7 @@ func (w *recWatcher) ReportError(err error)           { w.add(fmt.Sprintf("err:%
 
 // msgName is the full name of a method's input/output message type; a trailing "?" marks a
 // placeholder descriptor (the type is defined in no file of the delivered registry).
-func msgName(m bridgedesc.Message) (name string) {
+func msgName(m bridgedesc.Message, reg bridgedesc.FileResolver) (name string) {
 	if m == nil {
 		return "-"
 	}
@@ -94,6 +94,14 @@ func msgName(m bridgedesc.Message) (name string) {
 	name = tok(string(d.FullName()))
 	if d.IsPlaceholder() {
 		name += "?"
+	} else if reg != nil {
+		// the descriptor Message.New() builds must be THE descriptor the delivered registry has under that name
+		// (identity, not only equal content): "%" marks a type taken from somewhere else (an earlier update, another target)
+		if rd, err := reg.FindDescriptorByName(d.FullName()); err == nil {
+			if rmd, ok := rd.(protoreflect.MessageDescriptor); !ok || rmd != d {
+				name += "%"
+			}
+		}
 	}
 	return name
 }
@@ -121,7 +129,7 @@ func showTarget(d *bridgedesc.Target) string {
 			for j, b := range m.Bindings {
 				bs[j] = tok(b.HTTPMethod) + "@" + tok(b.Pattern) + "@" + tok(b.RequestBodyPath) + "@" + tok(b.ResponseBodyPath)
 			}
-			parts = append(parts, tok(m.RPCName)+"~"+msgName(m.Input)+"~"+msgName(m.Output)+"~"+b01(m.ClientStreaming)+b01(m.ServerStreaming)+"~"+strings.Join(bs, "^"))
+			parts = append(parts, tok(m.RPCName)+"~"+msgName(m.Input, d.FileResolver)+"~"+msgName(m.Output, d.FileResolver)+"~"+b01(m.ClientStreaming)+b01(m.ServerStreaming)+"~"+strings.Join(bs, "^"))
 		}
 		svcs = append(svcs, strings.Join(parts, "!"))
 	}
@@ -132,6 +140,9 @@ func showTarget(d *bridgedesc.Target) string {
 func (Area) Exec(input string) string {
 	if strings.HasPrefix(input, "pipe ") {
 		return pipeExec(input)
+	}
+	if strings.HasPrefix(input, "hist ") {
+		return histExec(input)
 	}
 	if strings.HasPrefix(input, "nf ") {
 		return nfExec(input)
